@@ -42,3 +42,7 @@ pub(crate) mod c20 {
 pub(crate) mod c19 {
     include!(concat!(env!("OSRG_RUSTYBGP_VERIF_DIR"), "/hd/ev_c19.rs"));
 }
+#[allow(dead_code, unused_imports, unused_variables, clippy::all)]
+pub(crate) mod c06 {
+    include!(concat!(env!("OSRG_RUSTYBGP_VERIF_DIR"), "/hd/ev_c06.rs"));
+}
